@@ -1233,6 +1233,8 @@ func e2Cluster(t *testing.T, prop string) {
 			t.Fatalf("INFRA: %v", err)
 		}
 		restarted := false
+		var completedBefore map[string]bool
+		var restartAt int64
 		if prop == "C12" && rapid.IntRange(0, 2).Draw(t, "killAndRestart") > 0 {
 			// mrp is killed while jobs are on the "cluster" (they go on: the
 			// submit command detached them) and others wait for a slot; the
@@ -1244,6 +1246,7 @@ func e2Cluster(t *testing.T, prop string) {
 				p.Wait(30 * time.Second)
 				os.Remove(filepath.Join(c.PsDir(), "_lock"))
 				restarted = true
+				completedBefore, restartAt = c.Completed(), time.Now().UnixNano()
 				c.logf("mrp killed after %d job records; restarted with the same options", len(c.Ledger()))
 				if p, err = c.Start(clusterArgs...); err != nil {
 					t.Fatalf("INFRA: %v", err)
@@ -1268,6 +1271,13 @@ func e2Cluster(t *testing.T, prop string) {
 		}
 		c.checkFinal(t, "C01")
 		recs := c.Ledger()
+		// (C05 in cluster mode: a job whose completion was on disk when mrp
+		// was killed is not submitted again by the next mrp)
+		for _, r := range recs {
+			if restarted && r.Start > restartAt && completedBefore[r.Identity] {
+				fail(t, "C05", "completed-job-executed-again", "cluster mode: job %s (attempt %d) ran after the restart although its _complete existed before\n%s", r.Identity, r.Attempt, c.describe())
+			}
+		}
 		got, err := ledgerMultiset(c.prog, recs, restarted)
 		if err != nil {
 			t.Fatalf("INFRA: %v", err)
